@@ -143,26 +143,27 @@ let handle_run (c : case) (toks : string list) =
           else begin
             incr n_traced;
             let f = (try List.nth !exts leaf with _ -> { static_ops = 0; sat = None }) in
+            let msd = (try List.nth c.mss leaf with _ -> "?") in
             (match f.sat with
              | None ->
                incr n_bad;
-               Printf.printf "BAD C09 what=no-figure case=%s kind=%s mode=%s keymask=%s premask=%s leaf=%d ops=%d depth=%d desc=%s\n"
-                 c.id c.kind mode km pm leaf ops depth c.desc
+               Printf.printf "BAD C09 what=no-figure case=%s kind=%s mode=%s keymask=%s premask=%s leaf=%d ops=%d depth=%d ms=%s desc=%s\n"
+                 c.id c.kind mode km pm leaf ops depth msd c.desc
              | Some (_, wcount, _, estack, eops) ->
                if c.kind <> "tr" then begin
                  bump ("ops-slack/" ^ slack_class (f.static_ops + eops - ops));
                  if ops > f.static_ops + eops then begin
                    incr n_bad;
-                   Printf.printf "BAD C09 what=opcount case=%s kind=%s mode=%s keymask=%s premask=%s leaf=%d measured=%d static_ops=%d max_exec_op_count=%d desc=%s\n"
-                     c.id c.kind mode km pm leaf ops f.static_ops eops c.desc
+                   Printf.printf "BAD C09 what=opcount case=%s kind=%s mode=%s keymask=%s premask=%s leaf=%d measured=%d static_ops=%d max_exec_op_count=%d ms=%s desc=%s\n"
+                     c.id c.kind mode km pm leaf ops f.static_ops eops msd c.desc
                  end
                end;
                bump ("depth-slack/" ^ slack_class (wcount + estack - depth));
                bump ("depth/" ^ (if depth < 5 then "1-4" else if depth < 10 then "5-9" else if depth < 20 then "10-19" else "20+"));
                if depth > wcount + estack then begin
                  incr n_bad;
-                 Printf.printf "BAD C09 what=stackdepth case=%s kind=%s mode=%s keymask=%s premask=%s leaf=%d measured=%d max_witness_stack_count=%d max_exec_stack_count=%d items=%d desc=%s\n"
-                   c.id c.kind mode km pm leaf depth wcount estack (List.length items) c.desc
+                 Printf.printf "BAD C09 what=stackdepth case=%s kind=%s mode=%s keymask=%s premask=%s leaf=%d measured=%d max_witness_stack_count=%d max_exec_stack_count=%d items=%d ms=%s desc=%s\n"
+                   c.id c.kind mode km pm leaf depth wcount estack (List.length items) msd c.desc
                end)
           end))
   | _ -> ()
@@ -187,6 +188,7 @@ let () =
                        txv = 2; lock = 0; seq = 0; held_abs = None; held_rel = None;
                        sigpairs = []; sigs_idx = []; sigs_leaf = []; hashes_c = [] }
        | "DESC" :: d :: _ -> upd (fun c -> c.desc <- d)
+       | "MS" :: rest -> upd (fun c -> c.mss <- c.mss @ [String.concat " " rest])
        | "SCRIPT" :: s :: _ -> upd (fun c -> c.scripts <- c.scripts @ [bytes_of_hex s])
        | "EXT" :: rest -> exts := !exts @ [parse_ext rest]
        | "SPK" :: s :: _ -> upd (fun c -> c.spk <- bytes_of_hex s)
